@@ -300,6 +300,28 @@ def policy_stream(ctx, prop, kinds, npol, nev, arches=None, defects=None, le_cho
                 lines.append("P %s %d @>%s %s" % (cid2, le, an, PolicyGen.tokens(pol2)))
                 if nev:
                     lines += pg.events(pol2, max(5, nev // 2), foreign_share=foreign_share, x32_share=x32_share)
+            if not defect and pol["groups"] and rng.random() < 0.06:
+                # fresh policy values that differ only in one group's action, an unnamed one each time
+                for j, sib in enumerate(pg.siblings(pol)):
+                    cid3 = "%ss%d" % (cid, j)
+                    meta[cid3] = dict(kind=kind + "/sibling", arch=an, defect=None, le=le, groups=len(sib["groups"]), arch_token=an)
+                    dist[kind + "/sibling"] = dist.get(kind + "/sibling", 0) + 1
+                    lines.append("P %s %d %s %s" % (cid3, le, an, PolicyGen.tokens(sib)))
+                    if nev:
+                        lines += pg.events(sib, max(5, nev // 2), foreign_share=foreign_share, x32_share=x32_share)
+            if defect and an in PolicyGen.TABLE_ARCHES and rng.random() < 0.5:
+                # the refused policy VALUE is repaired in place and assembled again; its architecture is left as the
+                # failed call left it ("@@>B": no architecture is set again)
+                pol3 = pg.policy(archname=an, kind=kind)
+                cid4 = cid + "r"
+                meta[cid4] = dict(kind=kind + "/repaired-in-place", arch=an, defect=None, le=le, groups=len(pol3["groups"]), arch_token="@@>" + an)
+                dist[kind + "/repaired-in-place"] = dist.get(kind + "/repaired-in-place", 0) + 1
+                # the value whose compilation failed must be the previous case: re-emit the defective one right before
+                lines.append("P %sx %d %s %s" % (cid, le, an, PolicyGen.tokens(pol)))
+                meta[cid + "x"] = dict(meta[cid])
+                lines.append("P %s %d @@>%s %s" % (cid4, le, an, PolicyGen.tokens(pol3)))
+                if nev:
+                    lines += pg.events(pol3, max(5, nev // 2), foreign_share=foreign_share, x32_share=x32_share)
         for (cid, line, evs, m) in (extra_cases(pg, rng) if extra_cases else []):
             meta[cid] = m
             dist[m.get("kind", "extra")] = dist.get(m.get("kind", "extra"), 0) + 1
